@@ -268,6 +268,8 @@ theorem gvar_type (b : Bytes) (v : GvarView) (total : Nat) (t : OffsetType)
       have : OffsetType.shortDivByTwo.maxRepresentable ≤ OffsetType.long.maxRepresentable := by decide
       omega
 
+theorem gvarArray_ascSound (b : Bytes) (v : GvarView) : (gvarArray b v).AscSound := fun h => h
+
 /-- **gvar splice**: a successful `gvarPatch` on a gvar whose glyph count matches maxp reads back with
 the same axis / tuple / glyph counts and the same shared tuples; its offsets are ascending from 0 to
 the data length, and every glyph's data is the padded first-wins patch data or the old data. -/
@@ -290,8 +292,8 @@ theorem gvarPatch_spec (b : Bytes) (gps : List GlyphPatches) (m : Nat) (out : By
             | none => glyphAt v.offsets (b.drop v.arrayOffset) g) := by
   obtain ⟨v, repl, t, data, offs, hr, hd, hp, hasm⟩ := gvarPatch_ok b gps m out h
   obtain ⟨hsort, _, hlk⟩ := dedup_spec TAG_gvar gps repl hd
-  obtain ⟨e1, e2⟩ := patchOffsetArray_eq _ repl m hsort t data offs hp
-  obtain ⟨f1, f2, f3, f4⟩ := patchOffsetArray_facts _ repl m hsort t data offs hp
+  obtain ⟨e1, e2⟩ := patchOffsetArray_eq _ repl m (gvarArray_ascSound b v) hsort t data offs hp
+  obtain ⟨f1, f2, f3, f4⟩ := patchOffsetArray_facts _ repl m (gvarArray_ascSound b v) hsort t data offs hp
   obtain ⟨total, ht1, ht2, _, _⟩ := patchOffsetArray_ok _ repl m t data offs hp
   obtain ⟨htype, hshort⟩ := gvar_type b v total t ht2
   obtain ⟨c1, c2, _⟩ := chooseOffsetType_spec _ total t ht2
@@ -380,5 +382,223 @@ theorem gvarPatch_spec (b : Bytes) (gps : List GlyphPatches) (m : Nat) (out : By
     unfold chunkFor
     rw [hlk g]
     cases firstWins TAG_gvar gps g <;> rfl
+
+/-! ## grouping: apply some patches to the table, then the rest to the result -/
+
+/-- the pieces of a successful gvar arm -/
+theorem gvarPatch_parts (b : Bytes) (gps : List GlyphPatches) (m : Nat) (out : Bytes)
+    (h : gvarPatch (some b) gps m = .ok out) :
+    ∃ v repl t tuples, gvarRead b = some v ∧ dedup TAG_gvar gps = .ok repl ∧
+      (t = .long ∨ t = .shortDivByTwo) ∧ gvarSharedTuples b v = .ok tuples ∧
+      out = gvarEmit b t (encodeOffs t (newOffsets (chunks (gvarArray b v) t repl m))) tuples
+        (chunks (gvarArray b v) t repl m).flatten ∧
+      (∀ o ∈ newOffsets (chunks (gvarArray b v) t repl m), o % t.divisor = 0) ∧
+      (∀ o ∈ newOffsets (chunks (gvarArray b v) t repl m), o / t.divisor < 2 ^ (t.width * 8)) := by
+  obtain ⟨v, repl, t, data, offs, hr, hd, hp, hasm⟩ := gvarPatch_ok b gps m out h
+  obtain ⟨hsort, _, hlk⟩ := dedup_spec TAG_gvar gps repl hd
+  obtain ⟨e1, e2⟩ := patchOffsetArray_eq _ repl m (gvarArray_ascSound b v) hsort t data offs hp
+  obtain ⟨f1, f2, f3, f4⟩ := patchOffsetArray_facts _ repl m (gvarArray_ascSound b v) hsort t data offs hp
+  obtain ⟨total, ht1, ht2, _, _⟩ := patchOffsetArray_ok _ repl m t data offs hp
+  obtain ⟨htype, hshort⟩ := gvar_type b v total t ht2
+  obtain ⟨tuples, hst, hdne, hout, _⟩ := gvarAssemble_ok b v t data offs out hasm
+  refine ⟨v, repl, t, tuples, hr, hd, htype, hst, ?_⟩
+  generalize hcs : chunks (gvarArray b v) t repl m = cs at e1 e2 f2 ⊢
+  have hdivb : t.divisor = 1 ∨ t.divisor = 2 := by
+    rcases htype with e | e <;> subst e <;> simp [OffsetType.divisor]
+  have hbias : t.bias = 0 := by rcases htype with e | e <;> subst e <;> rfl
+  have hpw := ascending_pairwise _ f1
+  have hodiv : ∀ o ∈ (gvarArray b v).offsets, o % t.divisor = 0 := by
+    intro o ho
+    rcases htype with e | e
+    · subst e; simp [OffsetType.divisor, Nat.mod_one]
+    · subst e
+      have hl := hshort rfl
+      obtain ⟨_, _, _, _, _, hoffs⟩ := gvarRead_some b v hr
+      simp only [gvarArray] at ho
+      rw [hoffs, hl] at ho
+      simp only [gvarOffsets, Bool.false_eq_true, if_false, List.mem_map] at ho
+      obtain ⟨r, _, hre⟩ := ho
+      subst hre
+      simp [OffsetType.divisor]
+  have hcsdiv : ∀ c ∈ cs, c.length % t.divisor = 0 := by
+    intro c hc
+    obtain ⟨g, hg', he⟩ := List.mem_iff_getElem.mp hc
+    subst hcs
+    rw [chunks_getElem] at he
+    rw [← he]
+    rw [chunks_length] at hg'
+    exact chunk_len_div _ t repl m g hdivb hodiv hpw f3 (by omega)
+  have hos_div := newOffsets_div t.divisor cs hcsdiv
+  have hos_b : ∀ o ∈ newOffsets cs, o / t.divisor < 2 ^ (t.width * 8) := by
+    intro o ho
+    have h1 := newOffsets_le_last cs o ho
+    rw [hbias, Nat.add_zero] at f2
+    have hpos : 0 < t.divisor := by rcases hdivb with e | e <;> omega
+    exact Nat.lt_of_le_of_lt (Nat.div_le_div_right h1) f2
+  refine ⟨?_, hos_div, hos_b⟩
+  rw [hout, e1, e2]
+
+/-- the emitted table read back as the view the next application starts from -/
+theorem gvar_readback_view (b : Bytes) (v : GvarView) (hr : gvarRead b = some v) (t : OffsetType)
+    (ht : t = .long ∨ t = .shortDivByTwo) (cs : List Bytes) (tuples : Bytes)
+    (hst : gvarSharedTuples b v = .ok tuples) (hlen : cs.length = v.glyphCount)
+    (hdiv : ∀ o ∈ newOffsets cs, o % t.divisor = 0)
+    (hb : ∀ o ∈ newOffsets cs, o / t.divisor < 2 ^ (t.width * 8))
+    (hsz : (gvarEmit b t (encodeOffs t (newOffsets cs)) tuples cs.flatten).length < 2 ^ 32) :
+    ∃ v', gvarRead (gvarEmit b t (encodeOffs t (newOffsets cs)) tuples cs.flatten) = some v' ∧
+      v'.glyphCount = v.glyphCount ∧ v'.long = decide (t = .long) ∧ v'.offsets = newOffsets cs ∧
+      (gvarEmit b t (encodeOffs t (newOffsets cs)) tuples cs.flatten).drop v'.arrayOffset = cs.flatten ∧
+      gvarSharedTuples (gvarEmit b t (encodeOffs t (newOffsets cs)) tuples cs.flatten) v' = .ok tuples := by
+  have hnl : (newOffsets cs).length = v.glyphCount + 1 := by rw [newOffsets_length, hlen]
+  have hsize : 20 + (encodeOffs t (newOffsets cs)).length + tuples.length < 2 ^ 32 := by
+    have hl : (gvarEmit b t (encodeOffs t (newOffsets cs)) tuples cs.flatten).length
+        = 20 + (encodeOffs t (newOffsets cs)).length + tuples.length + cs.flatten.length := by
+      obtain ⟨h16, _⟩ := gvarRead_some b v hr
+      obtain ⟨b0, b1, b2, b3, b4, b5, b6, b7, b8, b9, b10, b11, b12, b13, b14, b15, rest, hbe⟩ :=
+        exists_prefix16 b h16
+      unfold gvarEmit
+      rw [hbe]
+      simp [sliceLen, beBytes4]
+      omega
+    omega
+  obtain ⟨v', r0, r1, r2, r3, r4, r5, r6, r7, r8, r9, r10⟩ :=
+    gvar_readback b v hr t ht (newOffsets cs) tuples cs.flatten hnl hdiv hb hsize
+  have htl := gvarSharedTuples_len b v tuples hst
+  refine ⟨v', r0, r3, r4, r5, by rw [r6]; exact r9, ?_⟩
+  unfold gvarSharedTuples
+  rw [r7, r1, r2, ← htl]
+  by_cases htz : tuples.length = 0
+  · have : tuples = [] := List.eq_nil_of_length_eq_zero htz
+    subst this
+    simp only [List.length_nil, if_true, Nat.add_zero]
+    rw [if_neg (by omega), if_neg (by rw [r8]; simp), if_neg (by omega)]
+    simp [sliceLen]
+  · simp only [htz, if_false]
+    rw [if_neg (by omega), if_neg (by rw [r8]; omega), if_neg (by rw [r8]; omega), r10]
+
+/-- bit 0 of the flags field of a gvar table: 1 = long offsets -/
+def gvarLongBit (x : Bytes) : Nat := (x.drop 15).headD 0 % 2
+
+/-- the header bytes the next application copies, in the emitted table -/
+theorem gvarEmit_header (b : Bytes) (t : OffsetType) (offs tuples data : Bytes) (h : 15 ≤ b.length) :
+    (gvarEmit b t offs tuples data).take 8 = b.take 8 ∧
+    sliceLen (gvarEmit b t offs tuples data) 12 3 = sliceLen b 12 3 ∧
+    ((gvarEmit b t offs tuples data).drop 15).headD 0 = gvarFlagByte b t := by
+  have hA : (b.take 8).length = 8 := by simp; omega
+  have hC : (sliceLen b 12 3).length = 3 := sliceLen_length b 12 3 (by omega)
+  unfold gvarEmit
+  generalize b.take 8 = A at hA
+  generalize sliceLen b 12 3 = C at hC
+  generalize hB : beBytes 4 (if tuples.length = 0 then 20 + offs.length + tuples.length else 20 + offs.length) = B
+  have hBl : B.length = 4 := by rw [← hB, beBytes_len]
+  generalize beBytes 4 (20 + offs.length + tuples.length) = B'
+  generalize gvarFlagByte b t = f
+  have e : A ++ B ++ C ++ [f] ++ B' ++ offs ++ tuples ++ data
+      = A ++ (B ++ (C ++ (f :: (B' ++ offs ++ tuples ++ data)))) := by
+    simp only [List.append_assoc, List.singleton_append, List.cons_append, List.nil_append]
+  rw [e]
+  refine ⟨List.take_left' hA, ?_, ?_⟩
+  · unfold sliceLen
+    rw [show (12 : Nat) = A.length + B.length by omega, ← List.drop_drop, List.drop_left' rfl,
+      List.drop_left' rfl]
+    exact List.take_left' hC
+  · rw [show (15 : Nat) = A.length + (B.length + C.length) by omega, ← List.drop_drop, List.drop_left' rfl,
+      ← List.drop_drop, List.drop_left' rfl, List.drop_left' rfl]
+    rfl
+
+theorem gvarFlagByte_longBit (b : Bytes) (t : OffsetType) (ht : t = .long ∨ t = .shortDivByTwo) :
+    gvarFlagByte b t % 2 = if t = .long then 1 else 0 := by
+  unfold gvarFlagByte
+  rcases ht with e | e <;> subst e
+  · simp only [OffsetType.width, if_true]; exact or_one_mod_two _
+  · simp only [OffsetType.width, show ¬ (2 = 4) by decide, if_false, reduceCtorEq]; exact and_254_mod_two _
+
+/-- re-emitting an emitted gvar with the same offset type copies the same header -/
+theorem gvarEmit_emit (b : Bytes) (t : OffsetType) (offs tuples data offs' tuples' data' : Bytes)
+    (h : 16 ≤ b.length) :
+    gvarEmit (gvarEmit b t offs tuples data) t offs' tuples' data' = gvarEmit b t offs' tuples' data' := by
+  obtain ⟨h1, h2, h3⟩ := gvarEmit_header b t offs tuples data (by omega)
+  have hf : gvarFlagByte (gvarEmit b t offs tuples data) t = gvarFlagByte b t := by
+    conv => lhs; unfold gvarFlagByte
+    rw [h3]
+    unfold gvarFlagByte
+    by_cases hw : t.width = 4
+    · simp only [hw, if_true, Nat.or_assoc]; rfl
+    · simp only [hw, if_false, Nat.and_assoc]; rfl
+  unfold gvarEmit at *
+  rw [h1, h2, hf]
+
+/-- **grouping of the gvar arm.**  If the intermediate table and the two final tables use the same
+offset width (long-offsets flag), patching with `gps1` and then patching the result with `gps2`
+yields byte for byte the table that patching with `gps1 ++ gps2` in one go yields.  (Without the
+width condition the tables can differ in the flag, the offset encoding and the zero pad byte short
+offsets force after odd-length data — known finding C18-offset-width-history-dependent.) -/
+theorem gvarPatch_two_step (b : Bytes) (gps1 gps2 : List GlyphPatches) (m : Nat) (out1 out2 out12 : Bytes)
+    (hgc : ∀ v, gvarRead b = some v → v.glyphCount = m + 1) (hsz : out1.length < 2 ^ 32)
+    (hagree : Agree TAG_gvar (gps1 ++ gps2))
+    (h1 : gvarPatch (some b) gps1 m = .ok out1)
+    (h2 : gvarPatch (some out1) gps2 m = .ok out2)
+    (h12 : gvarPatch (some b) (gps1 ++ gps2) m = .ok out12)
+    (hw1 : gvarLongBit out1 = gvarLongBit out12) (hw2 : gvarLongBit out2 = gvarLongBit out12) :
+    out2 = out12 := by
+  obtain ⟨v, repl1, t1, tuples, hr, hd1, ht1, hst, e1, hdiv1, hb1⟩ := gvarPatch_parts b gps1 m out1 h1
+  obtain ⟨v1, repl2, t2, tuples2, hr1, hd2, ht2, hst2, e2, _, _⟩ := gvarPatch_parts out1 gps2 m out2 h2
+  obtain ⟨v', repl12, t12, tuples', hr', hd12, ht12, hst', e12, _, _⟩ :=
+    gvarPatch_parts b (gps1 ++ gps2) m out12 h12
+  rw [hr] at hr'; cases hr'
+  rw [hst] at hst'; cases hst'
+  obtain ⟨h16, _⟩ := gvarRead_some b v hr
+  have hvg := hgc v hr
+  generalize hcs1 : chunks (gvarArray b v) t1 repl1 m = cs1 at e1 hdiv1 hb1
+  have hcs1len : cs1.length = v.glyphCount := by rw [← hcs1, chunks_length, hvg]
+  -- the widths agree
+  have hbit : ∀ (x : Bytes) (t : OffsetType) (o tu d : Bytes), 16 ≤ x.length → (t = .long ∨ t = .shortDivByTwo) →
+      gvarLongBit (gvarEmit x t o tu d) = if t = .long then 1 else 0 := by
+    intro x t o tu d hx ht
+    unfold gvarLongBit
+    rw [(gvarEmit_header x t o tu d (by omega)).2.2]
+    exact gvarFlagByte_longBit x t ht
+  have h16' : 16 ≤ out1.length := (gvarRead_some out1 v1 hr1).1
+  have ht1_12 : t1 = t12 := by
+    rw [e1, e12, hbit b t1 _ _ _ h16 ht1, hbit b t12 _ _ _ h16 ht12] at hw1
+    rcases ht1 with a | a <;> rcases ht12 with c | c <;> subst a c <;> simp at hw1 ⊢
+  have ht2_12 : t2 = t12 := by
+    rw [e2, e12, hbit out1 t2 _ _ _ h16' ht2, hbit b t12 _ _ _ h16 ht12] at hw2
+    rcases ht2 with a | a <;> rcases ht12 with c | c <;> subst a c <;> simp at hw2 ⊢
+  subst t12
+  subst t2
+  -- the intermediate table as the second application sees it
+  obtain ⟨w, rw0, rw1, rw2, rw3, rw4, rw5⟩ :=
+    gvar_readback_view b v hr t1 ht1 cs1 tuples hst hcs1len hdiv1 hb1 (by rw [← e1]; exact hsz)
+  rw [← e1] at rw0 rw4 rw5
+  rw [hr1] at rw0; cases rw0
+  rw [rw5] at hst2; cases hst2
+  -- both routes build the same chunks
+  obtain ⟨_, _, lk1⟩ := dedup_spec TAG_gvar gps1 repl1 hd1
+  obtain ⟨_, _, lk2⟩ := dedup_spec TAG_gvar gps2 repl2 hd2
+  obtain ⟨_, _, lk12⟩ := dedup_spec TAG_gvar (gps1 ++ gps2) repl12 hd12
+  have hchunks : chunks (gvarArray out1 v1) t1 repl2 m = chunks (gvarArray b v) t1 repl12 m := by
+    apply List.ext_getElem
+    · rw [chunks_length, chunks_length]
+    · intro g hga hgb
+      rw [chunks_getElem, chunks_getElem]
+      rw [chunks_length] at hga
+      apply chunkFor_two_step (gvarArray b v) _ t1 repl1 repl2 repl12 m g hga
+      · show v1.offsets = _
+        rw [rw3, hcs1]
+      · show out1.drop v1.arrayOffset = _
+        rw [rw4, hcs1]
+      · rw [lk12 g, lk1 g, lk2 g, firstWins_append]
+      · intro d1 d2 hf1 hf2
+        rw [lk1 g] at hf1
+        rw [lk2 g] at hf2
+        have m1 : (g, d1) ∈ (gps1 ++ gps2).flatMap (patchData TAG_gvar) := by
+          rw [List.flatMap_append]; exact List.mem_append_left _ (lookup_some_mem _ g d1 hf1)
+        have m2 : (g, d2) ∈ (gps1 ++ gps2).flatMap (patchData TAG_gvar) := by
+          rw [List.flatMap_append]; exact List.mem_append_right _ (lookup_some_mem _ g d2 hf2)
+        exact agree_flat TAG_gvar _ hagree g d1 d2 m1 m2
+  rw [e2, e12, hchunks]
+  conv => lhs; rw [e1]
+  exact gvarEmit_emit b t1 _ _ _ _ _ _ h16
 
 end FontVerif.Ift
